@@ -149,6 +149,76 @@ pub fn run_project_real(schema: &graphql_type_system::Schema<Cow<str>, Pos>, fil
 }
 
 // ------------------------------------------------------------------------------------------------
+// the CLI leg: the same project through the built `nitrogql-cli check --output-format json`
+
+pub struct CliOut {
+    pub code: Option<i32>,
+    pub timed_out: bool,
+    /// (file path as the CLI prints it, line, column, message)
+    pub errors: Vec<(String, usize, usize, String)>,
+    /// the output is not the JSON document the command promises
+    pub malformed: Option<String>,
+}
+
+/// write the project under `<scratch>/cli-project` (schema files under `schema/`, operation files under `ops/<path>`,
+/// `graphql.config.yaml`) and run `check`
+pub fn run_project_cli(cli: &str, scratch: &str, p: &Project) -> CliOut {
+    let dir = nvh::cli::fresh_dir(scratch, "cli-project");
+    let mut pr = nvh::cli::Project::default();
+    for (i, t) in p.sdl.iter().enumerate() {
+        pr.add(&format!("schema/s{i}.graphql"), t);
+    }
+    for f in &p.files {
+        pr.add(&format!("ops{}", f.path), &f.text);
+    }
+    pr.add("graphql.config.yaml", "schema: \"schema/**/*.graphql\"\ndocuments: \"ops/**/*.graphql\"\n");
+    pr.write(&dir);
+    let run = nvh::cli::run_cli(cli, &dir, &["check", "--output-format", "json"], &[], std::time::Duration::from_secs(30));
+    let _ = std::fs::remove_dir_all(&dir);
+    let mut out = CliOut { code: run.code, timed_out: run.timed_out, errors: vec![], malformed: None };
+    // (a log line may precede the JSON document)
+    let json_part = run.stdout.find('{').map(|i| &run.stdout[i..]).unwrap_or("");
+    match serde_json::from_str::<J>(json_part.trim()) {
+        Ok(v) => {
+            if let Some(errs) = v["check"]["errors"].as_array() {
+                for e in errs {
+                    out.errors.push((
+                        e["file"]["path"].as_str().unwrap_or("").to_string(),
+                        e["file"]["line"].as_u64().unwrap_or(0) as usize,
+                        e["file"]["column"].as_u64().unwrap_or(0) as usize,
+                        e["message"].as_str().unwrap_or("").to_string(),
+                    ));
+                }
+            } else if run.code == Some(0) && v["check"].is_null() {
+                out.malformed = Some(format!("no `check` object: {}", run.stdout.chars().take(200).collect::<String>()));
+            }
+        }
+        Err(e) => out.malformed = Some(format!("{e}: stdout {:?} stderr {:?}", run.stdout.chars().take(200).collect::<String>(), run.stderr.chars().take(200).collect::<String>())),
+    }
+    out
+}
+
+/// message class: the message with every quoted part and every number blanked
+pub fn message_template(m: &str) -> String {
+    let mut out = String::new();
+    let mut in_quote = false;
+    for c in m.chars() {
+        if c == '\'' {
+            in_quote = !in_quote;
+            out.push(c);
+        } else if in_quote {
+        } else if c.is_ascii_digit() {
+            if !out.ends_with('#') {
+                out.push('#');
+            }
+        } else {
+            out.push(c);
+        }
+    }
+    out
+}
+
+// ------------------------------------------------------------------------------------------------
 // the abstract merge (harness' own reading of `#import`)
 
 fn segments(p: &str) -> Vec<String> {
@@ -635,6 +705,50 @@ pub fn duplicate_fragment_across_files(rng: &mut Rng, plan: &mut Plan) -> Option
     Some(class.into())
 }
 
+/// An imported fragment spreads a sibling fragment of its own file that the importer does not import: file 0 names F in a
+/// specific import of file Y, F spreads G (also in Y), and after the edit nothing requests G for file 0. File Y on its
+/// own stays valid; the merge of file 0 spreads an undefined fragment (5.5.2.1) from inside an imported definition.
+pub fn drop_sibling_import(rng: &mut Rng, plan: &mut Plan) -> Option<String> {
+    let mut cands: Vec<(usize, String)> = vec![]; // (line index in file 0, sibling name G)
+    for (li, (y, t, _)) in plan.files[0].lines.iter().enumerate() {
+        let Some(names) = t else { continue };
+        for g in names {
+            // some other requested fragment of the same file spreads g directly
+            let spread_by_sibling = plan.files[*y].defs.iter().any(|d| match d {
+                ExecDef::Frag(f) if &f.name != g && names.contains(&f.name) => {
+                    let mut sp = BTreeSet::new();
+                    spreads_of(&f.sel, &mut sp);
+                    sp.contains(g)
+                }
+                _ => false,
+            });
+            // and file 0 itself does not spread g (the fault must sit in the imported definition only)
+            let mut own = BTreeSet::new();
+            for d in &plan.files[0].defs {
+                spreads_of(def_sel(d), &mut own);
+            }
+            if spread_by_sibling && !own.contains(g) {
+                cands.push((li, g.clone()));
+            }
+        }
+    }
+    if cands.is_empty() {
+        return None;
+    }
+    let (li, g) = cands[rng.below(cands.len())].clone();
+    if let Some(names) = &mut plan.files[0].lines[li].1 {
+        names.retain(|n| n != &g);
+        if names.is_empty() {
+            return None;
+        }
+    }
+    // nothing else may bring g in
+    if plan_requested(plan, 0).values().any(|ns| ns.contains(&g)) {
+        return None;
+    }
+    Some("import/imported-fragment-spreads-unimported-sibling".into())
+}
+
 /// the files that hold the definitions a single-file mutation touched, when only fragment definitions were touched
 pub fn fault_files_of(before: &Doc, after: &Doc, plan: &Plan) -> Vec<usize> {
     let touched: Vec<&ExecDef> = after.defs.iter().filter(|d| !before.defs.contains(d)).collect();
@@ -748,6 +862,28 @@ pub fn corpus_c03(s1: &str) -> Vec<Project> {
                 ("/p/a.graphql", "#import FQ from \"./b.graphql\"\nquery Q { ...FQ }\n"),
                 ("/p/b.graphql", "#import FQ2 from \"./c.graphql\"\nfragment FQ on Query { ...FQ2 }\n"),
                 ("/p/c.graphql", "fragment FQ2 on Query { f(n: $nope) }\n"),
+            ],
+        ),
+        p(
+            "incompatible-variable-in-an-imported-fragment",
+            "5.8.5",
+            "frag1",
+            "incompatible-variable-type",
+            &[],
+            &[
+                ("/p/page.graphql", "#import Posts from \"./frags.graphql\"\nquery Page($count: String) { ...Posts }\n"),
+                ("/p/frags.graphql", "fragment Posts on Query { f(n: 1, l: [$count]) }\n"),
+            ],
+        ),
+        p(
+            "imported-fragment-spreads-unimported-sibling",
+            "5.5.2.1",
+            "import/imported-fragment-spreads-unimported-sibling",
+            "drop-sibling-import",
+            &[],
+            &[
+                ("/p/page.graphql", "#import FA from \"./frags.graphql\"\nquery Page { a { ...FA } }\n"),
+                ("/p/frags.graphql", "fragment FA on A { x b { ...FB } }\nfragment FB on B { y }\n"),
             ],
         ),
     ]
